@@ -96,6 +96,76 @@ func registerRound2() {
 		Quick: 2, Thor: 3,
 	})
 
+	// a slow unbind handler is a handler of its connection: closed / reported / Stop returns only after it
+	regSpec(&Spec{
+		Name: "unbind-slow-handler", Props: []string{"C10", "C08", "C12"},
+		Conns: []ConnSpec{{Ops: []string{"bind", "unbind"}, H: map[int]*HSpec{2: {Yields: 3}}, Read: "all"}},
+		Quick: 2, Thor: 3,
+	})
+	regSpec(&Spec{
+		Name: "stop-while-unbind-handler-runs", Props: []string{"C12", "C08", "C10"},
+		Srv:      SrvOpts{OnCloseYields: 1},
+		Conns:    []ConnSpec{{Ops: []string{"unbind"}, H: map[int]*HSpec{1: {Yields: 3}}, Read: "all"}},
+		StopWhen: "note:unbind-started", Quick: 2, Thor: 3,
+	})
+
+	// ---------------------------------------------------------------- C06: a blocked handler of every route kind
+	// (the route kinds take different paths through the mux: matched route, default route)
+	for _, op := range []string{"bind", "search", "modify", "add", "delete", "whoami", "unknownext", "compare-default"} {
+		first := op
+		srv := SrvOpts{}
+		if op == "compare-default" {
+			continue // an unsupported operation never reaches a route
+		}
+		regSpec(&Spec{
+			Name: "blocked-" + op + "-handler-vs-later-requests", Props: []string{"C06"}, Srv: srv,
+			Conns: []ConnSpec{{Ops: []string{first, "bind", "search"}, Segs: []int{1, 1, 1}, H: map[int]*HSpec{1: {WaitStarted: 3}}, Expect: 3}},
+			Quick: 2, Thor: 3,
+		})
+		regSpec(&Spec{
+			Name: "blocked-" + op + "-handler-vs-other-connection", Props: []string{"C06", "C07"}, Srv: srv,
+			Conns: []ConnSpec{
+				{Ops: []string{first}, H: map[int]*HSpec{1: {WaitNote: "fresh-done"}}, Expect: 1, Name: "faulty"},
+				{Ops: []string{"bind", "search"}, Segs: []int{1, 1}, Expect: 2, Name: "fresh"},
+			},
+			Quick: 2, Thor: 3,
+		})
+	}
+
+	// ---------------------------------------------------------------- C07: what a handler panics with
+	for _, pv := range []string{"error", "int", "struct", "stringer", "nilmap"} {
+		regSpec(&Spec{
+			Name: "panic-value-" + pv, Props: []string{"C07", "C08"},
+			Conns: []ConnSpec{
+				{Ops: []string{"bind", "search"}, H: map[int]*HSpec{2: {Panic: "before", PanicVal: pv}}, Expect: 1, EndNote: "panicked", Name: "faulty"},
+				{Ops: []string{"search"}, Expect: 1, Name: "bystander", EndNote: "faulty-done"},
+				{Ops: []string{"bind", "search"}, Segs: []int{1, 1}, Expect: 2, Name: "fresh", After: 2},
+			},
+			Check: bystandersServed,
+			Quick: 2, Thor: 3,
+		})
+	}
+	// a client that stalls in the TLS handshake of a TLS listener (nothing sent / half a record) is a fault on
+	// its own connection only
+	for _, stall := range []string{"listener-nohello", "listener-halfhello"} {
+		regSpec(&Spec{
+			Name: "tls-" + stall + "-vs-other-connections", Props: []string{"C07", "C17", "C18"},
+			Srv: SrvOpts{TLS: getPKI().ServerCfg},
+			Conns: []ConnSpec{
+				{TLS: stall, End: "stay", EndNote: "fresh-done", Name: "faulty"},
+				{TLS: "listener", Ops: []string{"bind", "search"}, Segs: []int{1, 1}, Expect: 2, Name: "fresh", WaitNote: "faulty-connected"},
+			},
+			Extra: func(w *World) {
+				vrt.GoNamed("watch", func() {
+					vrt.WaitUntil("accepted", func() bool { return vnet.Accepted() >= 1 })
+					vrt.Atomic(func() { w.Notes["faulty-connected"]++ })
+				})
+			},
+			Check: bystandersServed,
+			Quick: 2, Thor: 3,
+		})
+	}
+
 	// ---------------------------------------------------------------- C11
 	// Stop while a StartTLS handler waits for a ClientHello that never comes
 	regSpec(&Spec{
